@@ -5,6 +5,7 @@ package sim
 // client/apis/apps/v1/helper.
 
 import (
+	"bytes"
 	"encoding/json"
 	"fmt"
 	"regexp"
@@ -169,6 +170,12 @@ func Template(lbls map[string]string, v int) v1.PodTemplateSpec {
 	if v >= 7 {
 		c.Args = []string{fmt.Sprint(v)}
 	}
+	if v == 11 {
+		// accepted by pod validation (no upper bound) but beyond the integers a
+		// float64 holds exactly
+		g := int64(1<<53 + 1)
+		t.Spec.TerminationGracePeriodSeconds = &g
+	}
 	t.Spec.Containers = []v1.Container{c}
 	return t
 }
@@ -193,13 +200,17 @@ func claimTemplates(n int, withLabels bool) []v1.PersistentVolumeClaim {
 	return out
 }
 
+// canonJSON renders v as JSON with sorted keys; numbers keep their exact digits
+// (a decode into float64 would silently equate integers above 2^53).
 func canonJSON(v any) string {
 	b, err := json.Marshal(v)
 	if err != nil {
 		panic(err)
 	}
+	dec := json.NewDecoder(bytes.NewReader(b))
+	dec.UseNumber()
 	var x any
-	if err := json.Unmarshal(b, &x); err != nil {
+	if err := dec.Decode(&x); err != nil {
 		panic(err)
 	}
 	b, _ = json.Marshal(x)
@@ -310,4 +321,15 @@ func sortedOrdinals(m map[int32]bool) []int32 {
 	}
 	sort.Slice(out, func(i, j int) bool { return out[i] < out[j] })
 	return out
+}
+
+// floatRounded re-encodes canonical JSON through float64 numbers (what a decode
+// into map[string]interface{} does to integers above 2^53).
+func floatRounded(j string) string {
+	var x any
+	if err := json.Unmarshal([]byte(j), &x); err != nil {
+		return j
+	}
+	b, _ := json.Marshal(x)
+	return string(b)
 }
